@@ -34,12 +34,23 @@ MANIFEST = dict(
 )
 
 # finding id -> (input signature computed by the harness on the *input*, failing checks it may explain)
+CK = {"comments:reordered", "comments:merged", "comments:lost", "comments:changed"}
+IK = {"idem:layout", "idem:content"}
 KNOWN = {
-    "F15": ("multi-blank2", {"ast", "bc"}),
-    "F16": ("hole-string", {"idem", "comments"}),
-    "F17": ("hole-comment", {"comments"}),
-    "F18": ("multi-uspace", {"ast", "bc"}),
-    "F19": ("tail-block", {"ast", "bc"}),
+    "F15": ("multi-blank2", {"ast", "bc"}),                 # blank lines inside a """ string collapsed
+    "F16": ("hole-string", CK | IK),                        # trivia scanner not interpolation-aware
+    "F17": ("hole-comment", CK),                            # comment inside a string hole dropped
+    "F18": ("multi-uspace", {"ast", "bc"}),                 # trailing Unicode space of a """ line stripped
+    "F19": ("tail-block", {"ast", "bc"}),                   # trivia-kept block ending in a tail call
+    "F20": ("blank-line", {"idem:layout"}),                 # a blank line forces a break but is not kept -> 2nd format re-joins
+    "F21": ("two-comments", {"comments:reordered"}),        # dangling comments are emitted at the end of the file
+    "F22": ("two-comments", {"comments:merged"}),           # two trailing comments of one node land on one line
+    "F23": ("multi-pattern", {"ast"}),                      # a """ string pattern is re-rendered as "..." (StringStyle changes)
+    "F24": ("lower-tuple-type", {"reparse"}),               # `'e[...]` rendered as `e[...'e]`
+    "F25": ("partial-type-pattern", {"ast", "bc"}),         # `((j: 't))` rendered as `(j: 't)` = a different pattern
+    "F26": ("spawn-rich-function", {"ast", "bc", "reparse"}),   # `@#<'t>'int -> 'bin {..}` rendered with the `@type {..}` sugar
+    "F27": ("wrap-binding", {"ast", "bc"}),                 # wrap_breaking_body braces a binding/matching chain
+    "F28": ("comment-near-arrow", IK),                      # a comment next to `=>`: the 2nd format wraps the consequence in braces / re-joins
 }
 
 
@@ -62,7 +73,7 @@ def parse_e2e(line):
         if k == "reparse" and item[1] != "ok":
             d["fails"].add("reparse")
         elif k == "idem" and item[1] != "ok":
-            d["fails"].add("idem")
+            d["fails"].add("idem:" + item[1])
         elif k == "ast" and item[1] != "ok":
             d["fails"].add("ast")
         elif k == "bc":
@@ -73,7 +84,7 @@ def parse_e2e(line):
             if not isinstance(v, str):
                 d["bc_detail"] = v
         elif k == "comments" and item[1] != "ok":
-            d["fails"].add("comments")
+            d["fails"].add("comments:" + item[1])
         elif k == "sig":
             d["sig"] = set(item[1:])
         elif k == "feat":
@@ -223,7 +234,8 @@ def gen_sources(ctx, n):
             src = g.program()
         except RecursionError:
             continue
-        out.append((src, "typed" if typed else "free", g.comment_texts))
+        # ground truth for the comment scanner: the generator's own markers, in source order
+        out.append((src, "typed" if typed else "free", re.findall(r"//[ ]?c\d+#", src)))
     return out
 
 
